@@ -332,6 +332,12 @@ func (s *BaseNodeService) verifyMessage(fsmInstance *state_machines.FSMInstance,
 		return fmt.Errorf("failed to GetPubKeyByUsername: %w", err)
 	}
 
+	// ed25519.Verify panics on a key of any other length, and the (unauthenticated)
+	// opening proposal or a reinit message may have registered one
+	if len(senderPubKey) != ed25519.PublicKeySize {
+		return fmt.Errorf("public key registered for %s has invalid length %d", message.SenderAddr, len(senderPubKey))
+	}
+
 	if !ed25519.Verify(senderPubKey, message.Bytes(), message.Signature) {
 		return errors.New("signature is corrupt")
 	}
